@@ -38,6 +38,7 @@ type srcFS struct {
 	failOpen  string // the next Open of this name fails (once)
 	onFail    func(name string) // called when a Read failure is injected
 	noSeek    bool              // handles expose Read, Stat, ReadDir and Close only (a source that cannot seek)
+	failDir   string            // listing this directory of the source fails
 }
 
 // plainFile hides every optional method of the source handle but ReadDir
@@ -103,6 +104,9 @@ func (f *srcFile) Read(p []byte) (int, error) {
 }
 func (f *srcFile) Seek(o int64, w int) (int64, error) { return hackpadfs.SeekFile(f.File, o, w) }
 func (f *srcFile) ReadDir(n int) ([]hackpadfs.DirEntry, error) {
+	if f.s.failDir != "" && f.s.failDir == f.name {
+		return nil, &hackpadfs.PathError{Op: "readdir", Path: f.name, Err: errInjected}
+	}
 	return hackpadfs.ReadDirFile(f.File, n)
 }
 func (f *srcFile) ReadAt(p []byte, off int64) (int, error) {
@@ -525,6 +529,7 @@ func genAccess(r *Rng, es []srcEntry) []cOp {
 var c10Paged = map[hackpadfs.File]bool{}
 
 func runC10(r *Rng, n int, replay string) {
+	defer runC10SrcDirFail(900000)
 	for id := 0; id < n; id++ {
 		es := genTree(r)
 		pol := retainPolicies[r.Intn(len(retainPolicies))]
@@ -1200,4 +1205,54 @@ func partOf(kind string, idx int, log []string, size int) int {
 		chunk = 512
 	}
 	return chunk / 2
+}
+
+// runC10SrcDirFail: "each call returns the same ... as the same call on the source" when the source's call FAILS:
+// a directory handle of the cache lists the source at every ReadDir; while the source cannot list that directory the
+// cache's ReadDir (any n, before or after a successful page) must fail too -- not report an empty directory or the end.
+func runC10SrcDirFail(idBase int) {
+	id := idBase
+	es := []srcEntry{{path: "d", isDir: true}, {path: "d/a", data: []byte("a"), perm: 0o644}, {path: "d/b", data: []byte("bb"), perm: 0o644}, {path: "d/c", isDir: true}}
+	for _, minimal := range []bool{false, true} {
+		for _, n := range []int{-1, 0, 1, 2, 5} {
+			for _, pagedFirst := range []bool{false, true} {
+				src := newSrcFS(buildTree(es))
+				_, store := newStore(minimal)
+				cfs, err := cache.NewReadOnlyFS(src, store, cache.ReadOnlyOptions{})
+				if err != nil {
+					panic(err)
+				}
+				c := &Case{ID: id, Kind: "source-listing-fails", Trivial: true}
+				id++
+				c.Cells = []string{fmt.Sprintf("source-listing-fails/n=%d/paged=%v", n, pagedFirst)}
+				h, err := cfs.Open("d")
+				if err != nil {
+					panic(err)
+				}
+				if pagedFirst {
+					if _, err := hackpadfs.ReadDirFile(h, 1); err != nil {
+						panic(err)
+					}
+				}
+				src.failDir = "d"
+				ents, rerr := hackpadfs.ReadDirFile(h, n)
+				c.Text = []string{fmt.Sprintf("source d/{a,b,c/}; cache handle of d (one entry read before: %v); the source can no longer list d; cache ReadDir(%d) -> %d entries, %v", pagedFirst, n, len(ents), rerr)}
+				if rerr == nil || rerr == io.EOF {
+					c.fail(c.Text[0]+"   (the source's ReadDir fails, the cache's does not)", fmt.Sprintf("source-listing-fails:n=%d:%v", n, rerr))
+				}
+				src.failDir = ""
+				// once the source lists again, so does the cache (and from where the handle was)
+				ents2, rerr2 := hackpadfs.ReadDirFile(h, -1)
+				want := 3
+				if pagedFirst {
+					want = 2
+				}
+				if rerr2 != nil || len(ents2) != want {
+					c.fail(fmt.Sprintf("%s; after the source recovered ReadDir(-1) -> %d entries, %v (want the %d that remain)", c.Text[0], len(ents2), rerr2, want), "source-listing-fails:after")
+				}
+				_ = h.Close()
+				emit(c)
+			}
+		}
+	}
 }
